@@ -201,6 +201,47 @@ CHECKS = {
    note="Trusted: Coq kernel + VM; Go channel / sync.Mutex / scheduler semantics as modelled (mutex fairness needed for completion under an endless input stream); hand-written LTS. No axioms.",
    technique="Coq proof of LTS invariants and a ranking-function liveness argument + history-checking correspondence on stress runs",
    design="§5 C15", engine="coq-model+go-overlay-harness (stress, -race)"),
+
+ "C16": dict(
+   text="Proof (partial by nature): Coq theorems about a labelled transition system of ProcessEvents' three goroutines (main, LED, MIDI-in) with both "
+        "mutexes, the WaitGroup and the context, over all reachable states / interleavings, unbounded: after the input closes every run of own steps is "
+        "bounded by an explicit measure and ends with ProcessEvents returned and both background goroutines finished, no fairness assumed "
+        "(C16_terminates, C16_measure_step, C16_measure_bound, C16_progress, C16_after_cancel, C16_no_leftover); with the clean-up under "
+        "eventProcessMutex any two conflicting accesses share a lock (C16_lock_discipline), the original is refuted by a 16-label trace "
+        "(C16_cleanup_race_refuted, fixed in /repo); a product of device machines with disjoint state gives each device its stand-alone output "
+        "(C16_no_crosstalk*). The goroutine structure and access table are hand-transcribed; real races and schedules are EXPLORED, not proved: "
+        "1-8 real devices under go test -race with the real LED loop against a fake OpenRGB server (mount namespace for /sys/class/hidraw), MIDI input "
+        "streaming, notes held, streams closed at random offsets in the LED cycle; race reports, return time, leftover goroutines and per-device output "
+        "(compared in coqc with the device model) are checked.",
+   note="Trusted: Coq kernel + VM; Go scheduler / mutex / select / WaitGroup semantics as modelled; the race detector as the oracle for real memory races; output channel drained and OpenRGB peer responsive (model assumptions). No axioms.",
+   technique="Coq proof over an LTS (ranking function, lock-set discipline) + race-detector exploration with differential output comparison",
+   design="§5 C16", engine="coq-model+go-overlay-harness (-race, OpenRGB rig)"),
+ "C17": dict(
+   text="Proof: Coq theorems about a transcription of the LED frame function (index arithmetic, write order, uint8 offset arithmetic included): the "
+        "colour at a mapped key's LED equals an independently written specification - active / external / lowest-channel colour / pitch-class colour "
+        "(White in mapping Control) / unavailable - for every configuration, layout and state with |offset| <= 128 (C17_key_colour_partial), and for "
+        "every state reached by alternating histories and MIDI input (C17_key_colour_reachable); the state-action keys show the current values "
+        "(C17_state_keys, unconditional after the LED-0 fix); MIDI-input Note Off, Note On velocity 0 and a fired panic clear the highlight "
+        "(C17_ext_clear, _removed, _added, _clear_panic, C17_panic_is_burst); the final frame is all red (C17_final_red); refuted witnesses for the "
+        "velocity-0 and LED-0 defects (fixed in /repo) and for the mod-256 aliasing (known finding K4). Tie to /repo: the REAL LED loop runs "
+        "against a fake OpenRGB server; after every step of generated histories the frame carrying that step's generation stamp is compared, as "
+        "colour classes, with the model's frame and with the specification in coqc.",
+   note="Trusted: Coq kernel + VM; go-colorful's HSV round trip (frames are compared as colour classes with colours configured far apart); openrgb-go wire protocol as spoken by the fake server; two keys never carry the same action (Go map iteration would make actionToEvcode nondeterministic). Known finding K4. No axioms.",
+   technique="Coq proof of a transcribed frame function against an independent specification + differential correspondence on real frames",
+   design="§5 C17", engine="coq-model+go-overlay-harness (OpenRGB rig)"),
+ "C19": dict(
+   text="Proof (partial: fsnotify/inotify are the environment): Coq theorems: the filter accepts exactly events with the Write bit whose lower-cased "
+        "name ends in \".toml\", for every mask and byte string (C19_filter, C19_filter_bytes); over all reachable states of an LTS of the watcher "
+        "pipeline delivered + pending + aborted = accepted events judged, in order, none lost or invented (C19_every_write_notified); with a reading "
+        "consumer everything is delivered (C19_all_delivered); after cancel every run is bounded by an explicit measure and ends with the stream "
+        "closed and all goroutines finished, whether or not a hand-off was pending (C19_shutdown, C19_shutdown_progress); the original code is refuted "
+        "three ways (stuck after cancel, suffix without dot, whole-mask comparison; fixed in /repo). Tie to /repo: the real "
+        "DetectDeviceConfigChanges on real directories with scripted writes (TOML / non-TOML / xtoml / upper-case / nested, bursts, isolated), "
+        "prompt or late consumer, cancel at random points; notifications, silence, closure and leftover goroutines observed within stated time "
+        "windows and checked by monitors in coqc.",
+   note="Trusted: Coq kernel + VM; fsnotify v1.5.1 and inotify behaviour (one raw event = one Op mask; events for files that vanished are dropped by fsnotify; queue overflow not modelled); generous time windows (500 ms delivery, 1 s shutdown). No axioms.",
+   technique="Coq proof over an LTS (invariant + ranking function) + scripted correspondence on the real watcher with time windows",
+   design="§5 C19"),
 }
 
 def main():
